@@ -46,6 +46,21 @@ def declare(w, kind='apply'):
     }
     if kind == 'apply':
         w.cls('Job', module='pool', pyname='ApplyResult', fields=job_fields_apply)
+    elif kind == 'map':
+        # MapResult(ApplyResult): per-item lists where ApplyResult has scalars
+        f = dict(job_fields_apply)
+        f.update({'_accepted': list_of(BoolS), '_worker_pid': list_of(opt(IntS)),
+                  '_time_accepted': list_of(opt(RealS)), '_length': IntS, '_chunksize': IntS,
+                  '_number_left': IntS})
+        w.cls('Job', module='pool', pyname='MapResult', fields=f)
+    elif kind in ('imap', 'imapu'):
+        # IMapIterator: no acceptance time, no limits, no scalar owner
+        w.cls('Job', module='pool', pyname='IMapIterator' if kind == 'imap' else 'IMapUnorderedIterator', fields={
+            '_job': IntS, '_cache': dict_of(IntS, ref('Job')), '_cond': ValS,
+            '_items': list_of(tup(BoolS, ValS)), '_index': IntS, '_length': opt(IntS), '_ready': BoolS,
+            '_unsorted': dict_of(opt(IntS), tup(BoolS, ValS)), '_worker_pids': list_of(IntS),
+            '_lost_worker_timeout': RealS, '_worker_lost': opt(tup(RealS, opt(IntS))),
+        })
     w.cls('Pool', module='pool', fields={
         '_cache': dict_of(IntS, ref('Job')) if 'Job' in w.classes else ValS,
         '_pool': list_of(ref('WorkerP')),
@@ -202,7 +217,23 @@ def ext_quick_put(ex, args, kw):
     return SNone()
 
 
+def ext_sem_acquire(ex, args, kw):
+    """threading.Semaphore.acquire(self) (blocking): while it waits other
+    threads may release/acquire (keeping 0 <= _value <= max(_value, _initial_value));
+    returns True after decrementing a positive _value"""
+    self = args[0]
+    v = ex.path.read_field(self, '_value')
+    iv = ex.path.read_field(self, '_initial_value')
+    nv = IntS.fresh('value_when_woken')
+    hi = z3.If(v.e > iv.e, v.e, iv.e)
+    ex.path.assume(z3.And(nv.e >= 1, nv.e <= hi, z3.Or(v.e < 1, nv.e == v.e)))
+    ex.path.write_field(self, '_value', SV(IntS, nv.e - 1))
+    gset(ex, 'acquires', SV(IntS, gget(ex, 'acquires').e + 1))
+    return mk_bool(True)
+
+
 def declare_submission(w):
+    w.classes['Sem'].methods['acquire'] = ext_sem_acquire
     P = w.classes['Pool']
     P.fields.update({'_taskqueue': ValS, '_quick_put': ValS, 'on_timeout_set': opt(ValS),
                      'on_timeout_cancel': opt(ValS), '_timeout_handler': opt(ValS)})
@@ -212,6 +243,22 @@ def declare_submission(w):
 def apply_async_contract(prop):
     import handles as H
     eff = '(self.putlocks if waitforslot is None else waitforslot)'
+    c = _apply_async_contract(prop, eff)
+    # each property's check keeps the clauses that belong to it (all of them are
+    # proved by ./check C10, C05, C06, C07 together)
+    mine = {'C05': ['per_job_hard_limit_takes_precedence', 'accepted_when_running'],
+            'C06': ['per_job_soft_limit_takes_precedence', 'accepted_when_running'],
+            'C07': ['not_accepted_unless_running', 'accepted_when_running'],
+            'C04': ['lost_timeout_defaulted', 'accepted_when_running'],
+            'C10': ['one_slot_per_job', 'not_accepted_unless_running', 'accepted_when_running']}.get(prop)
+    if mine is not None:
+        c.ensures = {k: v for k, v in c.ensures.items() if k in mine}
+        if prop != 'C10':
+            c.raises = {'AnyException': {'send_failed': 'True'}}
+    return c
+
+
+def _apply_async_contract(prop, eff):
     return Contract(
         'pool.Pool.apply_async', prop=prop,
         params={'self': ref('Pool'), 'func': ValS, 'args': ValS, 'kwds': ValS, 'callback': opt(ValS),
